@@ -53,8 +53,10 @@ vector<size_t> AbstractHmmTransitionMatrix::sample(size_t size) const
 
   size_t nbStates = hmmStateAlphabet().getNumberOfStates();
 
-  // update pij_ and eqFreq_
+  // update eqFreq_ and pij_ (in this order: the two accessors of FullHmmTransitionMatrix share one flag,
+  // and the equilibrium accessor of AutoCorrelationTransitionMatrix does not fill pij_)
   getEquilibriumFrequencies();
+  getPij();
 
   size_t sta = 0, stb;
   double prob = RandomTools::giveRandomNumberBetweenZeroAndEntry(1.0);
